@@ -306,8 +306,24 @@ def check_circuit_side(ctx):
            sig="init-and-discard")
     fn = m.func(CIRC + ".Circuit.is_mixed")
     r = ret_expr(fn.body[-1:])
-    shape.match(ctx, "R12.6", CIRC + ".Circuit.is_mixed", r, "both_bits_and_qubits or any((box.is_mixed for box in self.boxes))", {}, mod=CIRC, node=fn, sig="is-mixed",
-                required="mixed as soon as one box is mixed or bits and qubits coexist")
+    shape.match(ctx, "R12.6", CIRC + ".Circuit.is_mixed", r, "self.dom.count(bit) and self.dom.count(qubit) or any((layer.cod.count(bit) and layer.cod.count(qubit) for layer in self.layers)) "
+                "or any((box.is_mixed for box in self.boxes))", {}, body=fn.body, mod=CIRC, node=fn, sig="is-mixed",
+                required="mixed as soon as one box is mixed or bits and qubits coexist on the domain or after any layer")
+    # the mode is forwarded wherever the caller's options are
+    n = 0
+    for q in (CIRC + ".Circuit.eval", CIRC + ".Sum.eval"):
+        f = m.func(q)
+        ctx.analysed(q)
+        for c in ast.walk(f):
+            if isinstance(c, ast.Call) and isinstance(c.func, ast.Attribute) and c.func.attr == "eval" and any(k.arg is None for k in c.keywords):
+                fwd = any(k.arg == "mixed" and ast.unparse(k.value) == "mixed" for k in c.keywords)
+                n += 1
+                ctx.ob("R12.6", "%s:%s" % (q, ast.unparse(c.func)), fwd, found=ast.unparse(c)[:100], required="an evaluation that forwards the caller's options forwards mixed=mixed as well (batches, sums, the backend shortcut)", mod=CIRC,
+                       node=c, sig="mode:" + ast.unparse(c.func))
+    ctx.need(n >= 4, "fewer than 4 forwarded evaluations in Circuit.eval / Sum.eval (%d)" % n)
+    # partner daggers used by the dispatch (Encode / MixedState evaluate as the dagger of their partner): exact rebuilds (shared with C02)
+    from .c02 import check_daggers
+    check_daggers(ctx, modules={CIRC}, rule="R12.3", kinds=("types", "involution", "raises", "not-a-box", "involution-raises"))
 
 
 def check(ctx):
